@@ -40,6 +40,10 @@ const nOutcomeCases = 5 + 25 + 125 + 625 + 3125 // 3905
 const nAllBanned = 5
 
 func main() {
+	if len(os.Args) >= 5 && os.Args[1] == "victim" {
+		victimMain() // grandchild role of the iofault cases
+		return
+	}
 	run.Main(run.Spec{
 		ID:    "C11",
 		Level: "fault_enumeration",
@@ -69,6 +73,21 @@ func plan(tier string, seed int64) []run.Batch {
 			bs = append(bs, run.Batch{Kind: "outcomes", Seed: seed, TimeoutS: 300, Params: map[string]string{"ids": dbg}})
 		}
 		return bs
+	}
+	// long-outage cases take ~20 s each: they start first, one per child
+	no := 2
+	if tier == "thorough" {
+		no = 8
+	}
+	for i := 0; i < no; i++ {
+		bs = append(bs, run.Batch{Kind: "outage", Seed: seed, N: 1, TimeoutS: 300, Params: map[string]string{"from": fmt.Sprint(i), "to": fmt.Sprint(i + 1)}})
+	}
+	nio := 4
+	if tier == "thorough" {
+		nio = 40
+	}
+	for i := 0; i < nio; i += 4 {
+		bs = append(bs, run.Batch{Kind: "iofault", Seed: seed, N: 4, TimeoutS: 300, Params: map[string]string{"from": fmt.Sprint(i), "to": fmt.Sprint(i + 4)}})
 	}
 	// the coverage-instrumented child comes first: its build time overlaps with the other batches
 	bs = append(bs, run.Batch{Kind: "cover", Seed: seed, Variant: "cover", TimeoutS: 300, Params: map[string]string{"direct": "100", "full": "16"}})
@@ -1109,6 +1128,26 @@ func child(b run.Batch, r *ev.Result) {
 		json.Unmarshal([]byte(b.P("ids")), &ids)
 		for _, g := range ids {
 			if runCase(outcomeCase(g, b.Seed), b, r) {
+				r.Count("cases_skipped_after_abort", 1)
+				return
+			}
+		}
+	case "iofault":
+		var from, to int
+		fmt.Sscan(b.P("from"), &from)
+		fmt.Sscan(b.P("to"), &to)
+		for i := from; i < to; i++ {
+			if runIOFault(ioFaultCase(i, b.Seed), b, r) {
+				r.Count("cases_skipped_after_abort", 1)
+				return
+			}
+		}
+	case "outage":
+		var from, to int
+		fmt.Sscan(b.P("from"), &from)
+		fmt.Sscan(b.P("to"), &to)
+		for i := from; i < to; i++ {
+			if runOutage(outageCase(i, b.Seed), b, r) {
 				r.Count("cases_skipped_after_abort", 1)
 				return
 			}
